@@ -68,11 +68,20 @@ Definition pool_ok (fix_rps : bool) (pr : pool * list rule) : bool :=
 Definition farmer_ok (f : farmer) : bool :=
   (0 <? f_pool f) && (0 <=? f_addr f) && (0 <? f_locked f) && coins_valid (f_debt f).
 Fixpoint zmax_list (l : list Z) : Z := match l with [] => 0 | x :: l' => Z.max x (zmax_list l') end.
-Definition validate (fix_rps : bool) (g : genesis) : bool :=
+Definition fee_valid (p : params) : bool := (0 <=? fst (m_fee p)) && (0 <=? snd (m_fee p)).
+Definition one_dec : Z := 1000000000000000000.
+(** Params.Validate (as SetParams calls it): the fee is a valid coin, 0 < tax rate < 1 *)
+Definition params_valid (p : params) : bool := fee_valid p && (0 <? m_tax p) && (m_tax p <? one_dec).
+(** [fix_v]: the repaired validation (commit "fix: farm genesis validation rejects a farmer of a pool that
+    is not in the genesis and parameters SetParams refuses") also looks for what makes InitGenesis panic *)
+Definition validate (fix_rps fix_v : bool) (g : genesis) : bool :=
   forallb (pool_ok fix_rps) (g_pools g)
   && (zmax_list (map (fun pr => p_id (fst pr)) (g_pools g)) <=? g_seq g)
   && forallb farmer_ok (g_farmers g)
-  && coins_valid [m_fee (g_prm g)].
+  && coins_valid [m_fee (g_prm g)]
+  && (if fix_v then forallb (fun f => existsb (Z.eqb (f_pool f)) (map (fun pr => p_id (fst pr)) (g_pools g))) (g_farmers g)
+                    && params_valid (g_prm g)
+      else true).
 
 (** InitGenesis at block height [h].  Keeper.Expired: above the end height, or AT the end height when
     the pool is not in the queue.  [fix_q]: the repaired import (commit "fix: farm InitGenesis
@@ -94,14 +103,13 @@ Fixpoint imp_farmers (ps : pstore) (l : list farmer) (fs : list ((Z * Z) * farme
   | [] => Some fs
   | f :: l' => if has (f_pool f) ps then imp_farmers ps l' (oins lt2 (f_addr f, f_pool f) f fs) else None
   end.
-Definition fee_valid (p : params) : bool := (0 <=? fst (m_fee p)) && (0 <=? snd (m_fee p)).
-Definition import (fix_rps fix_q : bool) (h : Z) (g : genesis) : option state :=
-  if negb (validate fix_rps g) then None
+Definition import (fix_rps fix_q fix_v : bool) (h : Z) (g : genesis) : option state :=
+  if negb (validate fix_rps fix_v g) then None
   else
     let '(ps, q) := fold_left (imp_pool fix_q h) (g_pools g) ([], []) in
     match imp_farmers ps (g_farmers g) [] with
     | None => None
-    | Some fs => if fee_valid (g_prm g) then Some (mkState (g_prm g) (g_seq g) ps fs q) else None
+    | Some fs => if params_valid (g_prm g) then Some (mkState (g_prm g) (g_seq g) ps fs q) else None
     end.
 
 (** Queries: pools with their rules, farmers, parameters (the queue is internal but decides whether a
@@ -132,11 +140,12 @@ Definition invb (fix_stake : bool) (h : Z) (s : state) : bool :=
   && forallb (fun e => eqb (fst e) (f_addr (snd e), f_pool (snd e)) && has (f_pool (snd e)) (pools s)
                        && farmer_fields_ok fix_stake (snd e)) (farmers s)
   && eqb (queue s) (queue_at h (pools s))
-  && coins_valid [m_fee (prm s)] && fee_valid (prm s) && (0 <=? seq s).
+  && coins_valid [m_fee (prm s)] && params_valid (prm s) && (0 <=? seq s).
 
 (** ** Correspondence and the C12 predicate *)
 Record run := mkRun {
-  r_sA : state; r_gA : genesis; r_val : bool; r_imp : Z; r_sB : option state; r_gB : option genesis
+  r_sA : state; r_gA : genesis; r_val : bool; r_imp : Z; r_sB : option state; r_gB : option genesis;
+  r_t : option (genesis * bool * Z)       (* a tampered copy of the export: the genesis, ValidateGenesis = nil, InitGenesis 0 ok / 2 panic *)
 }.
 Record case := mkCase { c_height : Z; c_runs : list run }.
 
@@ -144,20 +153,27 @@ Record case := mkCase { c_height : Z; c_runs : list run }.
 Definition fixed_rps : bool := true.
 Definition fixed_q : bool := true.
 Definition fixed_stake : bool := true.
+Definition fixed_v : bool := true.
 
 Definition corr_run (h : Z) (r : run) : bool :=
   invb fixed_stake h (r_sA r)
   && eqb (export (r_sA r)) (r_gA r)
-  && eqb (validate fixed_rps (r_gA r)) (r_val r)
-  && match import fixed_rps fixed_q h (r_gA r) with
+  && eqb (validate fixed_rps fixed_v (r_gA r)) (r_val r)
+  && match import fixed_rps fixed_q fixed_v h (r_gA r) with
      | None => negb (r_imp r =? 0)
      | Some b => (r_imp r =? 0) && eqb (r_sB r) (Some b) && eqb (r_gB r) (Some (export b))
+     end
+  && match r_t r with
+     | Some (tg, tv, ti) => eqb (validate fixed_rps fixed_v tg) tv
+                            && eqb (match import fixed_rps fixed_q fixed_v h tg with Some _ => true | None => false end) (ti =? 0)
+     | None => true
      end.
 
 (** clause codes: 11 export does not validate because a farmer has nothing locked; 12 ... because a
     reward per share is zero after rewards were released; 1 ... for another reason; 2 import panics;
     3 second export differs; 4 a pool / rule / farmer / parameter reads differently on B;
-    5 B's queue of active pools is not the set of pools still to be closed *)
+    5 B's queue of active pools is not the set of pools still to be closed;
+    6 a (tampered) genesis that ValidateGenesis accepts makes InitGenesis panic *)
 Definition prop_run (h : Z) (r : run) : Z :=
   first_code
     [ (11, r_val r || forallb (fun f => 0 <? f_locked f) (g_farmers (r_gA r)));
@@ -166,7 +182,8 @@ Definition prop_run (h : Z) (r : run) : Z :=
       (2, r_imp r =? 0);
       (3, match r_gB r with Some g => eqb g (r_gA r) | None => true end);
       (4, match r_sB r with Some b => eqb (queries b) (queries (r_sA r)) | None => true end);
-      (5, match r_sB r with Some b => eqb (queue b) (queue_at h (pools b)) | None => true end) ].
+      (5, match r_sB r with Some b => eqb (queue b) (queue_at h (pools b)) | None => true end);
+      (6, match r_t r with Some (_, tv, ti) => negb tv || (ti =? 0) | None => true end) ].
 
 Fixpoint check_runs (h : Z) (rs : list run) (i : Z) (corr prop code : Z) : Z * Z * Z :=
   match rs with
